@@ -53,15 +53,33 @@ Definition str_of_Z (z : Z) : str :=
   | Zneg p => lit (45%N :: digits_N (Npos p))
   end.
 
-(** [None]: a value whose [str()] the model does not cover (floats, containers). *)
-Definition to_str (v : json) : option str :=
+(** [None]: a value whose [str()] the model does not cover (floats, dictionaries, lists holding
+    strings or containers). *)
+Definition scalar_str (v : json) : option str :=
   match v with
   | JNull => Some (lit [78; 111; 110; 101]%N)                 (* "None" *)
   | JBool true => Some (lit [84; 114; 117; 101]%N)            (* "True" *)
   | JBool false => Some (lit [70; 97; 108; 115; 101]%N)       (* "False" *)
   | JInt z => Some (str_of_Z z)
-  | JStr s => Some s
   | _ => None
+  end.
+
+Fixpoint list_str (l : list json) : option str :=
+  match l with
+  | [] => Some []
+  | [v] => scalar_str v
+  | v :: l' =>
+      match scalar_str v, list_str l' with
+      | Some a, Some b => Some (a ++ lit [44; 32]%N ++ b)       (* ", " *)
+      | _, _ => None
+      end
+  end.
+
+Definition to_str (v : json) : option str :=
+  match v with
+  | JStr s => Some s
+  | JList l => match list_str l with Some r => Some (lit [91%N] ++ r ++ lit [93%N]) | None => None end
+  | _ => scalar_str v
   end.
 
 (** ** resolve *)
